@@ -13,7 +13,7 @@ theorem parseFile_zero (cfg : PCfg) (fs : Fs) (file : Str) (upper : List (Str ×
 theorem parseFile_succ (cfg : PCfg) (fs : Fs) (fuel : Nat) (file : Str) (upper : List (Str × Nat)) :
     parseFile cfg fs (fuel + 1) file upper =
       match fs.read (normPath file) with
-      | none => .error (.notFound file upper)
+      | none => .error (missingKind fs file upper)
       | some script =>
         match parse cfg script with
         | .error f => .error (.parse f file upper)
